@@ -16,7 +16,7 @@ import (
 	"verifharness/hx"
 )
 
-var stats = evid.New("C05", "rapid: a pool of 0..30 non-conflicting paths; each path is assigned to bundle A only, B only, both with identical bytes, both with different bytes, or B gets the bytes of another A file (rename / copy); contents around the leaf size; A and B uploaded with the same or different leaf sizes. Checked: core.Diff(local copy of A, remote B), Diff(remote A, remote B) and both reversed against a model diff keyed by path and compared by independently computed content key; core.Update(remote B, local A) must leave the directory byte-identical (incl. .datamon) to a fresh Publish of B; Update(A->A) is a no-op. Non-trivial: >= 2 different diff types present, or same-path-same-content, or a rename; distinct by (diff-type set, counts class, leaf relation, rename/same flags).")
+var stats = evid.New("C05", "rapid: a pool of 0..30 non-conflicting paths; each path is assigned to bundle A only, B only, both with identical bytes, both with different bytes, or B gets the bytes of another A file (rename / copy); contents around the leaf size; A and B uploaded with the same or different leaf sizes. Checked: core.Diff(local copy of A, remote B), Diff(remote A, remote B) and both reversed against a model diff keyed by path and compared by independently computed content key; core.Update(remote B, local A) must leave the directory byte-identical (incl. .datamon) to a fresh Publish of B; Update(A->A) is a no-op; in a third of the cases files are then deleted from the repository (DeleteEntriesFromRepo rewrites B under the same bundle ID) and Diff / Update of the now stale local copy of B against B are checked the same way. Non-trivial: >= 2 different diff types present, or same-path-same-content, or a rename; distinct by (diff-type set, counts class, leaf relation, rename/same flags).")
 
 func TestMain(m *testing.M) {
 	code := m.Run()
@@ -37,6 +37,10 @@ type caseT struct {
 	LeafB  uint32  `json:"leaf_b"`
 	Files  []fileT `json:"files"`
 	Conc   int     `json:"concurrency"`
+	// DelFromRepo: after the directory became a copy of B, these paths (indices into B's sorted paths, plus
+	// optionally an absent one) are removed from the repository with DeleteEntriesFromRepo, which rewrites
+	// the file lists of B under the same bundle ID
+	DelFromRepo []int `json:"delete_from_repo,omitempty"`
 }
 
 func drawCase(t *rapid.T) caseT {
@@ -89,6 +93,9 @@ func drawCase(t *rapid.T) caseT {
 		c.Files[bi].Where = "B-renamed"
 	}
 	c.Conc = rapid.IntRange(1, 20).Draw(t, "conc")
+	if rapid.IntRange(0, 2).Draw(t, "delrepo") == 0 {
+		c.DelFromRepo = rapid.SliceOfN(rapid.IntRange(0, 40), 1, 4).Draw(t, "delidx")
+	}
 	return c
 }
 
@@ -294,6 +301,56 @@ func runCase(c caseT) error {
 	if len(d.Entries) != 0 {
 		return fmt.Errorf("Diff(updated dir, B) not empty: %d entries", len(d.Entries))
 	}
+	if len(c.DelFromRepo) == 0 || len(tb) == 0 {
+		return nil
+	}
+	// ---- files are deleted from the repository: bundle B keeps its ID but lists fewer files
+	pathsB := tb.Paths()
+	var del []string
+	tb2 := hx.Tree{}
+	for p, d := range tb {
+		tb2[p] = d
+	}
+	for _, i := range c.DelFromRepo {
+		if i >= len(pathsB) {
+			if i%2 == 0 {
+				del = append(del, "no/such/file")
+			}
+			i %= len(pathsB)
+		}
+		del = append(del, pathsB[i])
+		delete(tb2, pathsB[i])
+	}
+	if err := core.DeleteEntriesFromRepo("repo", v.Stores, del); err != nil {
+		return fmt.Errorf("harness precondition: DeleteEntriesFromRepo(%q): %v", del, err)
+	}
+	wantShrunk, err := modelDiff(tb, tb2, c.LeafB, c.LeafB, keys)
+	if err != nil {
+		return err
+	}
+	d, err = core.Diff(ctx, local(dirA), remote(idB))
+	if err != nil {
+		return fmt.Errorf("Diff(local copy of B, B after delete-files): %v", err)
+	}
+	if err := compareDiff("Diff(local copy of B, B after delete-files)", d, wantShrunk); err != nil {
+		return err
+	}
+	if err := core.Update(ctx, remote(idB), local(dirA)); err != nil {
+		return fmt.Errorf("Update(B after delete-files -> local copy of B): %v", err)
+	}
+	fresh, err = hx.Download(sc, v.Stores, "repo", idB)
+	if err != nil {
+		return fmt.Errorf("fresh publish of B after delete-files: %v", err)
+	}
+	if diff := hx.DiffTrees(fresh.WithoutMeta(), tb2); diff != "" {
+		return fmt.Errorf("harness precondition: fresh download of B after delete-files differs from the model: %s", diff)
+	}
+	if got, err = hx.ReadTree(dirA); err != nil {
+		return err
+	}
+	if diff := hx.DiffTrees(got, fresh); diff != "" {
+		return fmt.Errorf("after Update to B (files deleted from the repo) the directory differs from a fresh download: %s", diff)
+	}
 	return nil
 }
 
@@ -324,7 +381,7 @@ func (c caseT) classes() (string, bool) {
 	if c.LeafA != c.LeafB {
 		leafRel = "differ"
 	}
-	sig := fmt.Sprintf("A=%s B=%s same=%s diff=%s ren=%d leaf=%s", cl(n["A"]), cl(n["B"]), cl(n["same"]), cl(n["diff"]), n["B-renamed"], leafRel)
+	sig := fmt.Sprintf("A=%s B=%s same=%s diff=%s ren=%d leaf=%s delrepo=%v", cl(n["A"]), cl(n["B"]), cl(n["same"]), cl(n["diff"]), n["B-renamed"], leafRel, len(c.DelFromRepo) > 0)
 	return sig, types >= 2 || n["same"] > 0 || n["B-renamed"] > 0
 }
 
